@@ -100,7 +100,7 @@ Definition item_checks (cid : Z) (it : option oitem) (q : list (Z * Z)) (in_orde
   end.
 
 (* one step: model state, observations so far, the operation and what was observed of it *)
-Definition replay_step (c : config) (st : option tss) (snl : seen * legit) (o : op) (ob : value) (a : acc)
+Definition replay_step (era : bool) (c : config) (st : option tss) (snl : seen * legit) (o : op) (ob : value) (a : acc)
   : option tss * (seen * legit) * acc :=
   let sn := fst snl in let lg := snd snl in
   match o, ob with
@@ -111,8 +111,12 @@ Definition replay_step (c : config) (st : option tss) (snl : seen * legit) (o : 
           let ord' := ord && match pre with Some p => oi_qval p <? rx | None => true end in
           let sn' := seen_set cid (it, ord') sn in
           let lg' := legit_add cid (rx, ref) lg in
-          let o6 := C06_handle_full_ok (ents_of pre) q rxt now org rx tx rxt' txt' (option_map oi_ents it)
-                    && pairs_ordered (ents_of it) && all_legit cid lg' (ents_of it) in
+          let o6 := (if era
+                     then C06_handle_ok_era (ents_of pre) q rxt now org rx tx rxt' txt' && C06_rxt_ok (ents_of pre) rxt rxt'
+                          && C06_post_ok (ents_of pre) rx (to64 txt') (option_map oi_ents it) && pairs_ordered_era (ents_of it)
+                     else C06_handle_full_ok (ents_of pre) q rxt now org rx tx rxt' txt' (option_map oi_ents it)
+                          && pairs_ordered (ents_of it))
+                    && all_legit cid lg' (ents_of it) in
           let o7 := item_checks cid it queue ord' && C07_queue_ok (cap real_config) (seen_count sn') queue in
           match st with
           | Some s =>
@@ -136,7 +140,8 @@ Definition replay_step (c : config) (st : option tss) (snl : seen * legit) (o : 
           let '(pre, ord) := seen_get cid sn in
           let sn' := seen_set cid (it, ord) sn in
           let lg' := legit_add cid (to64 rxt, to64 txt') lg in
-          let o6 := C06_update_ok (ents_of pre) (ents_of it) rxt txt' && pairs_ordered (ents_of it) && (rxt <? txt')
+          let o6 := C06_update_ok (ents_of pre) (ents_of it) rxt txt' && C06_update_given_ok rxt txt txt'
+                    && (if era then pairs_ordered_era (ents_of it) else pairs_ordered (ents_of it)) && (rxt <? txt')
                     && all_legit cid lg' (ents_of it) in
           let o7 := item_checks cid it queue ord && C07_queue_ok (cap real_config) (seen_count sn') queue in
           match st with
@@ -153,11 +158,11 @@ Definition replay_step (c : config) (st : option tss) (snl : seen * legit) (o : 
   | _, _ => (st, snl, acc_bad a)
   end.
 
-Fixpoint replay (c : config) (st : option tss) (sn : seen * legit) (ops : list op) (obs : list value) (a : acc)
+Fixpoint replay (era : bool) (c : config) (st : option tss) (sn : seen * legit) (ops : list op) (obs : list value) (a : acc)
   : option tss * (seen * legit) * acc :=
   match ops, obs with
   | [], [] => (st, sn, a)
-  | o :: ro, ob :: rb => let '(st', sn', a') := replay_step c st sn o ob a in replay c st' sn' ro rb a'
+  | o :: ro, ob :: rb => let '(st', sn', a') := replay_step era c st sn o ob a in replay era c st' sn' ro rb a'
   | _, _ => (st, sn, acc_bad a)
   end.
 
@@ -186,12 +191,12 @@ Fixpoint final_agree (s : tss) (sn : seen) (fin : list value) : bool * bool :=
   | _ => (false, false)
   end.
 
-Definition run_hist (a o : list value) : acc :=
+Definition run_hist (era : bool) (a o : list value) : acc :=
   match a, o with
   | [VL opsv], [VL obs; VL fin] =>
       match parse_ops opsv with
       | Some ops =>
-          let '(st, snl, ac) := replay real_config (Some tss_empty) ([], []) ops obs acc_ok in
+          let '(st, snl, ac) := replay era real_config (Some tss_empty) ([], []) ops obs acc_ok in
           let sn := fst snl in
           match st with
           | Some s =>
@@ -244,4 +249,174 @@ Definition run_flood_adm (o : list value) : option bool :=
       | _, _, _ => None
       end
   | _, _ => None
+  end.
+
+(* kind lsn.hist, the store after a history played against the real listeners: obs = the keys of
+   the items in the store (the key field of every item), exp = the ids of the clients that were
+   answered (the listeners' client ids as the harness knows them), both sorted.  One item per client,
+   each under its own id: no key twice, no key that is nobody's id; agreement = the two lists are equal *)
+Fixpoint keys_nodup (l : list value) : bool :=
+  match l with
+  | [] => true
+  | x :: r => negb (existsb (value_eqb x) r) && keys_nodup r
+  end.
+Definition run_lsn_keys (obs exp : list value) : bool * bool :=
+  (values_eqb obs exp, keys_nodup obs && forallb (fun k => existsb (value_eqb k) exp) obs).
+
+(* ---- operations on the store at its real capacity, each with the client's item as it was in
+   the real store before and after (kind tss.full, and the probes of tss.flood) ----
+   handle: [0 cid org rx tx rxt now pre rorg rrx rtx rref rxt' txt' post adm]
+           adm = [] or [n hk hq gone]: number of clients, key and queue value of the root of the
+           priority queue before the call, and whether that client has lost its item after it
+   report: [1 cid rxt txt pre txt' post]
+   An operation only reads and writes the item of its own client (and, for a client without an
+   item, the admission decision): the model is run on the store that holds just that item.
+   Result: (agreement with the model, C06 oracle, C07 oracle). *)
+Definition mini_state (cid : Z) (pre : option oitem) : tss :=
+  match pre with
+  | Some it =>
+      {| items := [{| it_key := cid; it_ents := map (fun p => {| e_rx := fst p; e_tx := snd p |}) (oi_ents it);
+                      it_qval := oi_qval it |}];
+         hq := [(cid, oi_qval it)] |}
+  | None => tss_empty
+  end.
+
+Definition post_agrees (m : option (Z * list (Z * Z))) (post : option oitem) : bool :=
+  let '(ge, gq) := items_agree m post in ge && gq.
+
+(* C07 on one item: 1..icap exchanges, distinct receive stamps, ranked not older than any of them *)
+Definition item_bounds_ok (it : option oitem) : bool :=
+  match it with
+  | None => true
+  | Some i =>
+      let rxs := map fst (oi_ents i) in
+      (1 <=? Z.of_nat (length rxs)) && (Z.of_nat (length rxs) <=? icap real_config) && nodup_z rxs &&
+      forallb (fun r => r <=? oi_qval i) rxs
+  end.
+
+(* the admission rule for a client without an item (C07): a store that is not full admits; a full
+   store admits exactly when the least recently active client is not more recent than the newcomer,
+   and then that client - the root of the queue - loses its item; otherwise nothing changes *)
+Definition admission_ok (adm : list value) (rx64 : Z) (post : option oitem) : bool :=
+  match adm with
+  | [VZ n; VZ _; VZ hq; VZ gone] =>
+      if n <? cap real_config then
+        match post with Some _ => gone =? 0 | None => false end
+      else if hq <=? rx64 then
+        match post with Some _ => gone =? 1 | None => false end
+      else
+        match post with Some _ => false | None => gone =? 0 end
+  | _ => true
+  end.
+
+Definition full_step (v : value) : option (bool * bool * bool) :=
+  match v with
+  | VL [VZ 0; VZ cid; VZ org; VZ rx; VZ tx; VZ rxt; VZ now; prev; VZ rorg; VZ rrx; VZ rtx; VZ rref; VZ rxt'; VZ txt'; postv; VL adm] =>
+      match parse_item prev, parse_item postv with
+      | Some pre, Some post =>
+          let q := {| q_org := org; q_rx := rx; q_tx := tx |} in
+          let orc := C06_handle_full_ok (ents_of pre) q rxt now rorg rrx rtx rxt' txt' (option_map oi_ents post) && pairs_ordered (ents_of post)
+                     && pairs_ordered (ents_of pre) in
+          let orc7 := item_bounds_ok post &&
+                      match pre with
+                      | None => admission_ok adm rrx post &&
+                                match post with Some i => (oi_qval i =? rrx) && Nat.eqb (length (oi_ents i)) 1 | None => true end
+                      | Some p => match post with
+                                  | Some i => (oi_qval i =? oi_qval p) || (oi_qval i =? rrx)   (* ranked as before, or by this exchange *)
+                                  | None => false      (* a known client keeps its item *)
+                                  end
+                      end in
+          let agree :=
+            match handle real_config (mini_state cid pre) cid q rxt now 0 with
+            | Some out =>
+                let r := o_reply out in
+                (r_org r =? rorg) && (r_rx r =? rrx) && (r_tx r =? rtx) && (r_ref r =? rref) &&
+                (o_rxt out =? rxt') && (o_txt out =? txt') &&
+                match pre, post with
+                | Some _, _ => post_agrees (model_ents (o_state out) cid) post
+                | None, None => true                                   (* served without state *)
+                | None, Some _ => post_agrees (model_ents (o_state out) cid) post
+                end
+            | None => false
+            end in
+          Some (agree, orc, orc7)
+      | _, _ => None
+      end
+  | VL [VZ 1; VZ cid; VZ rxt; VZ txt; prev; VZ txt'; postv] =>
+      match parse_item prev, parse_item postv with
+      | Some pre, Some post =>
+          let orc := C06_update_ok (ents_of pre) (ents_of post) rxt txt' && C06_update_given_ok rxt txt txt' && pairs_ordered (ents_of post) && (rxt <? txt') in
+          let out := update_tx (mini_state cid pre) cid rxt txt in
+          let agree := (t_txt out =? txt') && post_agrees (model_ents (t_state out) cid) post in
+          Some (agree, orc, item_bounds_ok post)
+      | _, _ => None
+      end
+  | _ => None
+  end.
+
+Fixpoint full_steps (l : list value) : option (bool * bool * bool) :=
+  match l with
+  | [] => Some (true, true, true)
+  | v :: r =>
+      match full_step v, full_steps r with
+      | Some (g, o, o7), Some (ga, oa, oa7) => Some (g && ga, o && oa, o7 && oa7)
+      | _, _ => None
+      end
+  end.
+
+(* ---- kinds tss.conc / tss.race: calls issued by several goroutines at once ----
+   Every client is driven by ONE goroutine, so the calls of a client are totally ordered by that
+   goroutine's program order, which the lock order respects (C07_lock_order_respects_program_order);
+   calls of other clients do not touch the client's item (C07_frame), except that newcomers evict
+   the least recently active clients - none of which takes part.  Hence, if the execution is
+   serialisable (C07_concurrent_calls_serialize), the replies to a client and its final item are
+   those of the model run on the client's own calls in program order, started from the item the
+   client had before the goroutines were started.
+   client: [cid old pre [call ...] final]
+     call: [0 org rx tx rxt now rorg rrx rtx rref rxt' txt'] | [1 rxt txt txt']
+     old = 1: a client never seen before whose requests are older than everything in the full
+     store: it is never admitted (every reply basic, no item at the end) *)
+Definition conc_call (cid : Z) (old : bool) (st : option tss * bool) (v : value) : option tss * bool :=
+  match st with
+  | (None, _) => (None, false)
+  | (Some s, ok) =>
+      match v with
+      | VL [VZ 0; VZ org; VZ rx; VZ tx; VZ rxt; VZ now; VZ rorg; VZ rrx; VZ rtx; VZ rref; VZ rxt'; VZ txt'] =>
+          let q := {| q_org := org; q_rx := rx; q_tx := tx |} in
+          match handle real_config s cid q rxt now 0 with
+          | Some out =>
+              let r := o_reply out in
+              (Some (if old then s else o_state out),
+               ok && (r_org r =? rorg) && (r_rx r =? rrx) && (r_tx r =? rtx) && (r_ref r =? rref) &&
+               (o_rxt out =? rxt') && (o_txt out =? txt'))
+          | None => (None, false)
+          end
+      | VL [VZ 1; VZ rxt; VZ txt; VZ txt'] =>
+          let out := update_tx s cid rxt txt in
+          (Some (t_state out), ok && (t_txt out =? txt'))
+      | _ => (None, false)
+      end
+  end.
+
+Definition conc_client (v : value) : bool :=
+  match v with
+  | VL [VZ cid; VZ old; prev; VL calls; finv] =>
+      match parse_item prev, parse_item finv with
+      | Some pre, Some fin =>
+          match fold_left (conc_call cid (old =? 1)) calls (Some (mini_state cid pre), true) with
+          | (Some s, ok) => ok && post_agrees (model_ents s cid) fin && item_bounds_ok fin && pairs_ordered (ents_of fin)
+          | (None, _) => false
+          end
+      | _, _ => false
+      end
+  | _ => false
+  end.
+
+(* counts: [nitems nqueue heapviol qidxviol qvalviol] of the store afterwards (structure of the real queue array) *)
+Definition run_conc (clients counts : list value) : bool :=
+  forallb conc_client clients &&
+  match counts with
+  | [VZ nitems; VZ nqueue; VZ hv; VZ qiv; VZ qvv] =>
+      (nitems =? nqueue) && (nitems <=? cap real_config) && (hv =? 0) && (qiv =? 0) && (qvv =? 0)
+  | _ => false
   end.
